@@ -181,3 +181,18 @@ def trim_beats(beats: Arr(Real, None), min_beat_time: Real = 5.0) -> Arr(Real, N
     ensures(forall(0, length(beats), lambda i: implies(beats[i] >= min_beat_time, exists(0, length(result), lambda k: result[k] == beats[i]))),
             label='every-late-beat-kept', props="C03")
     ensures(implies(sorted_events(beats), sorted_events(result)), label='order-kept', props="C03")
+
+
+@contract("mir_eval.beat._get_reference_beat_variations", props="C04 C07")
+def beat_variations(reference_beats: Arr(Real, None)):
+    """the five metrical variations: the beats themselves, the off-beats (midpoints), double tempo (beats and midpoints interleaved),
+    and the two half-tempo subsequences"""
+    n = length(reference_beats)
+    requires(n > 0)
+    orig, off, dbl, odd, even = result
+    ensures(length(orig) == n, forall(0, n, lambda k: orig[k] == reference_beats[k]), label='original-level')
+    ensures(length(dbl) == 2 * n - 1, forall(0, n, lambda k: dbl[2 * k] == reference_beats[k]),
+            forall(0, n - 1, lambda k: dbl[2 * k + 1] == (reference_beats[k] + reference_beats[k + 1]) / 2), label='double-tempo')
+    ensures(length(off) == n - 1, forall(0, n - 1, lambda k: off[k] == (reference_beats[k] + reference_beats[k + 1]) / 2), label='off-beat')
+    ensures(2 * length(odd) >= n, 2 * length(odd) <= n + 1, forall(0, length(odd), lambda k: odd[k] == reference_beats[2 * k]), label='half-tempo-odd')
+    ensures(2 * length(even) >= n - 1, 2 * length(even) <= n, forall(0, length(even), lambda k: even[k] == reference_beats[2 * k + 1]), label='half-tempo-even')
